@@ -1,1 +1,2 @@
 pub mod a;
+pub mod b;
